@@ -685,7 +685,13 @@ impl Display for LinearModel {
             format!("    {name}{} {} {}", lhs, c.constraint_type, rhs)
         });
 
-        let constraints = constraints.collect::<Vec<String>>().join("\n");
+        let mut constraints = constraints.collect::<Vec<String>>();
+        if constraints.is_empty() {
+            // the grammar has no way to write an empty constraint list before `define`:
+            // keep the text a valid program with a row that always holds
+            constraints.push("    0 <= 0".to_string());
+        }
+        let constraints = constraints.join("\n");
         let mut is_first = true;
         let objective = self
             .objective
@@ -726,9 +732,14 @@ impl Display for LinearModel {
         } else {
             "".to_string()
         };
+        // `solve` takes no objective expression
+        let objective = match self.optimization_type {
+            OptimizationType::Satisfy => "".to_string(),
+            _ => format!(" {}", objective),
+        };
         write!(
             f,
-            "{} {}\ns.t.\n{}{}",
+            "{}{}\ns.t.\n{}{}",
             self.optimization_type, objective, constraints, domain
         )
     }
